@@ -46,6 +46,7 @@ func (e *Engine) intrinsics() map[string]externalFn {
 		sym + ".CallArg":   extSymCallArg,
 		sym + ".Leaked":    func(fr *frame, args []value) value { return fr.i.sch.countLive() },
 		sym + ".Concrete":  extSymConcrete,
+		sym + ".Baseline":  extNop,
 		sym + ".ExploreSchedules": func(fr *frame, args []value) value {
 			if fr.i.opts.Sched == SchedExplore {
 				if args[0].(bool) {
